@@ -114,6 +114,20 @@ def enumerate_cases(tier):
                                 vals = [v / 4.0 for v in vals]
                             yield "diff-grid", {"mode": "diff", "spec": {"dims": dims, "labels": labs, "vk": vk, "vals": vals}, "ax": nd - 1,
                                                 "axis_form": "name", "scheme": scheme, "n": n, "keepaxis": keep}
+    # arg-extrema with skipna=True where the fibres hold NaN in every pattern (none ... all): each of the 16 patterns of a 4-label fibre next
+    # to an all-NaN fibre and to a NaN-free one; NumPy refuses an all-NaN fibre - if an answer is given, the other fibres must be right
+    for pat in range(16):
+        for op in ("argmin", "argmax"):
+            for ax in (0, 1):
+                fib = [("NaN" if pat & (1 << i) else float((i * 3 + pat) % 5) - 2.0) for i in range(4)]
+                cols = [fib, ["NaN"] * 4 if pat % 2 else [1.0, -1.0, 2.0, 0.5], [0.25, 3.0, -2.5, 1.0]]
+                grid = [[cols[j][i] for j in range(3)] for i in range(4)]          # (4 labels along t) x (3 fibres)
+                if ax == 0:
+                    dims, labs, vals = ["t", "y"], [[7, 3, 9, 5], ["a", "b", "c"]], [x for row in grid for x in row]
+                else:
+                    dims, labs, vals = ["y", "t"], [["a", "b", "c"], [7, 3, 9, 5]], [cols[j][i] for j in range(3) for i in range(4)]
+                yield "arg-skipna-nan-patterns", {"mode": "arg", "spec": {"dims": dims, "labels": labs, "vk": "f", "vals": vals}, "op": op, "skipna": True, "ax": ax, "axis_form": "name",
+                                                  "whole": False}
     # arg-extrema along an axis whose int labels are a permutation of the positions 0..n-1 (labels that are valid positions but
     # differ from them): every permutation of range(4) x argmin / argmax x operated axis first / last x where the extremum sits
     import itertools
